@@ -36,7 +36,8 @@ def derive(cfg, seed):
             "ascending": bool((h // 88128) % 2), "seed": 7 + h % 9973,
             "aligned": (h // 176256) % 5 == 0,      # DIRECTIO header that is already a multiple of 512 bytes (cards % 32 == 0)
             "big": (h // 881280) % 12 == 0,        # more than 10000 time samples per block
-            "ragged": (h // 10575360) % 3 == 0}    # windows per block not a multiple of num_subblocks: the last sub-block is shorter
+            "ragged": (h // 10575360) % 3 == 0,    # windows per block not a multiple of num_subblocks: the last sub-block is shorter
+            "blank": (h // 31726080) % 4 == 0}     # the second input block (the first, if there is only one) is all zeros (a dropped block)
 
 
 def write_input(cfg, inst, workdir):
@@ -97,6 +98,8 @@ def write_input(cfg, inst, workdir):
             # make sure the extremes are present
             v[0, 0, 0] = lo + 1j * lo
             v[-1, -1, -1] = hi + 1j * lo
+            if inst.get("blank") and len(truth) == (1 if cfg["bpf"] * (cfg["nfiles"] - 1) + cfg["last"] > 1 else 0):
+                v = np.zeros_like(v)
             h = collections.OrderedDict(hdr)
             h["PKTIDX"] = (i * cfg["bpf"] + j) * T
             blocks.append((h, guppi.encode_block(v, inst["bits"])))
